@@ -24,7 +24,7 @@ Proof. destruct o; cbn; auto. Qed.
 
 (* symbolic execution of one (small) stage: split on every test, reduce the combinators *)
 Ltac stage_simpl :=
-  cbn [andthen halt abort updcond wjob with_job with_res with_eff sat cj cr cf ce fst snd] in *.
+  cbn [andthen halt abort updcond wjob with_job with_res with_eff sat cj cr cf ce fst snd].
 
 Ltac stage_split1 :=
   match goal with
@@ -34,4 +34,15 @@ Ltac stage_split1 :=
   | |- context [match ?x with Some _ => _ | None => _ end] => destruct x eqn:?
   end.
 
-Ltac stage_exec := unfold abort, updcond, wjob, pop in *; stage_simpl; repeat (stage_split1; stage_simpl).
+Ltac stage_exec := unfold abort, updcond, wjob, pop; stage_simpl; repeat (stage_split1; stage_simpl).
+
+(* composition: [andthen (stage c) k] with a proved stage lemma [L : pre c -> sat QS R (stage c)] *)
+Ltac hoare_bind L := eapply sat_andthen; [ eapply L; eauto | cbv beta; intros ? ? ].
+
+Ltac enum_unfold :=
+  unfold PH_EMPTY, PH_PENDING, PH_RUNNING, PH_SUCCEEDED, PH_FAILED, PH_ABORTED,
+         SS_RC, SS_RS, SS_EV, SS_PS, SS_PB, SS_BR, SS_COMPLETE,
+         RS_NONE, RS_TIMEOUT, RS_INVALIDPOD, RS_MISSINGPOD, RS_MISSINGRES, RS_EXPIRED, RS_FORBIDDEN,
+         RS_UNSCHED, RS_FAILEDCREATE, RS_EVICTING, RS_EVICTCOMPLETE, RS_WAITBIND, RS_WAITREADY,
+         C_NONE, C_TRUE, C_FALSE, RP_EMPTY, RP_PENDING, RP_AVAILABLE, RP_SUCCEEDED, RP_WAITING, RP_FAILED,
+         SC_SCHEDULED, SC_UNSCHED, OW_OBJECT in *.
